@@ -42,7 +42,10 @@ impl MessageBatch {
 impl From<BatchConfig> for MessageBatch {
     fn from(config: BatchConfig) -> Self {
         let batch = Vec::with_capacity(config.batch_size as usize);
+        #[cfg(not(selium_verif))]
         let last_run = Instant::now();
+        #[cfg(selium_verif)]
+        let last_run = crate::verif::now();
 
         Self {
             batch,
